@@ -253,7 +253,13 @@ func c04Run(c c04Case) (fail *vlib.Failure, rs c04Stats) {
 			if op.Kind == "identityMap" {
 				first = page
 			} else {
-				first = uint64((reserveBefore - uintptr(n<<12)) >> 12)
+				// the region starts where the reservation cursor stands after the call: somewhere
+				// below the regions mapped so far, with room for n pages (directly below them or
+				// further down is the reservation code's choice)
+				first = uint64(earlyReserveLastUsed >> 12)
+				if err == nil && (earlyReserveLastUsed&0xfff != 0 || earlyReserveLastUsed > reserveBefore || uint64(reserveBefore-earlyReserveLastUsed) < n<<12) {
+					return vlib.Failf("%s: after mapping a region of %d pages the start of the mapped regions moved from %#x to %#x: no room for the region below the earlier ones", when, n, uint64(reserveBefore), uint64(earlyReserveLastUsed)), rs
+				}
 			}
 			frame0 := op.Frame
 			if op.Kind == "identityMap" {
